@@ -8,5 +8,5 @@ P=$(readlink -f "$1"); shift
 git -C /repo apply "$P" || { echo "patch does not apply"; exit 2; }
 trap 'git -C /repo checkout -- . ; python3 /verif/tools/extract_consts.py >/dev/null 2>&1; rm -rf /tmp/realrun' EXIT INT TERM
 for id in "$@"; do
-  RIO_OUT=/tmp/realrun VERIF_REGEN=1 /verif/check "$id" --tier quick 2>&1 | grep -E "^VIOL|^NOTE|tier=|do not build|FAILED|escalated" | cut -c1-260
+  RIO_OUT=/tmp/realrun VERIF_REGEN=1 /verif/check "$id" --tier quick 2>&1 | grep -E "^VIOL|^NOTE|tier=|do not build|FAILED|escalated|above the floor|tie failed|static tie|crash|STATEMENT|audit|broken" | cut -c1-260
 done
